@@ -52,7 +52,15 @@ func (w *hostileWorld) Gen(seed uint64, tier string) *Plan {
 	if tier == "thorough" && r.P(1, 4) {
 		n = []int{400, 1000}[r.Intn(2)]
 	}
-	for id := 0; id < n; id++ {
+	first := 0
+	if r.P(1, 25) {
+		op := genFill(r, 0, 100, 1500)
+		op.X = 9
+		s.ModelApply(op)
+		p.Ops = append(p.Ops, op)
+		first = 1
+	}
+	for id := first; id < n; id++ {
 		switch r.Weighted(30, 6, 3, 1) {
 		case 0:
 			p.Ops = append(p.Ops, s.GenHostile(r, id))
